@@ -23,7 +23,7 @@ static const jwk_item_t *KPRIV[NK], *KPUB[NK];
 
 /* ---- callback scripts --------------------------------------------------- */
 typedef struct { char which; char kind; const char *name; int type; const char *sval; long ival; } cbop_t;	/* kind S set-replace, A add (no replace), D del */
-typedef struct { int n; cbop_t op[6]; int ret; int pick_pub; } script_t;
+typedef struct { int n; cbop_t op[6]; int ret; int pick_pub; int pick_key; } script_t;	/* pick_key: 0 none, k+1: sign this token with K[k]/KALG[k] */
 static script_t cur_script;
 static int cb_ran;
 static const jwk_item_t *cb_pubkey;
@@ -49,6 +49,7 @@ static int the_cb(jwt_t *jwt, jwt_config_t *cfg)
 		if (o->which == 'h') jwt_header_set(jwt, &v); else jwt_claim_set(jwt, &v);
 	}
 	if (s->pick_pub) cfg->key = cb_pubkey;
+	if (s->pick_key) { cfg->key = KPRIV[s->pick_key - 1]; cfg->alg = (jwt_alg_t)KALG[s->pick_key - 1]; }
 	return s->ret;
 }
 
@@ -160,7 +161,8 @@ static void op_setcb(long h, jwt_builder_t *b)
 	s->n = (int)vh_below(&rng, 5);
 	s->ret = vh_below(&rng, 8) == 0;
 	s->pick_pub = vh_below(&rng, 10) == 0;
-	printf("[\"B\",%ld,{\"ret\":%d,\"pick_pub\":%d,\"ops\":[", h, s->ret, s->pick_pub);
+	s->pick_key = (!s->pick_pub && vh_below(&rng, 4) == 0) ? 1 + (int)vh_below(&rng, NK) : 0;
+	printf("[\"B\",%ld,{\"ret\":%d,\"pick_pub\":%d,\"pick_key\":%d,\"pick_alg\":%d,\"ops\":[", h, s->ret, s->pick_pub, s->pick_key, s->pick_key ? KALG[s->pick_key - 1] : 0);
 	for (int i = 0; i < s->n; i++) {
 		cbop_t *o = &s->op[i];
 		o->which = vh_below(&rng, 2) ? 'h' : 'c';
